@@ -45,7 +45,10 @@ TRUSTED = [
 ASSUMPTIONS = [
     "mixup_p + cutmix_p == 1.0 (the constructor raises NotImplementedError otherwise), so `apply` is always true",
     "domain of the claim (Proofs.in_domain): the batch has an image item x of shape (B, C, H, W) with a float dtype, "
-    "B >= 1; labels are rows (2-d, one-hot / soft / smoothed) or 1-d values in [0,1]; flip shuffling only for even B "
+    "B >= 1; labels are rows (ANY 2-d matrix: one-hot / soft / smoothed, and rows that do not sum to one -- multi-hot, "
+    "unnormalised, all-zero, negative entries, rows of -1 for unlabeled samples; the label formula is checked entry by "
+    "entry for all of them, the sum-to-one clause only where the input rows sum to one) or 1-d values in [0,1]; flip "
+    "shuffling only for even B "
     "(or B = 1).  Everything else is rejected explicitly and modelled as an error value (theorem errors_explained): "
     "AssertionError (odd B under flip; labels that are class indices > 1, outside [0,1] or of rank 3), ValueError "
     "(`h, w = x.shape[2:]` for images that are not (C,H,W) when a box is needed), RuntimeError (in-place mixup of an "
@@ -68,7 +71,9 @@ RULE = ("B in 1..9, 1-3 channels, H,W in 4..17 independently (some up to 40), al
         "batch size, i.e. other full and trailing batch sizes); item orders with index / "
         "aux items of dtypes int64, float64, float16, uint8, bool, Python scalars and the single-item mode 'x'; ctx "
         "entries recorded per sample by the dataset (int, float, bool, int16 / float32 tensors); label kinds one-hot id "
-        "/ random / long, soft rows, real LabelSmoothingWrapper (multi-class and binary), binary float / int, and the "
+        "/ random / long, soft rows, real LabelSmoothingWrapper (multi-class incl. unlabeled -1 samples, and binary), "
+        "rows that do not sum to one (multi-hot with 0..C ones incl. all-zero rows, unnormalised non-negative rows, rows "
+        "with negative entries, one-hot rows mixed with rows of -1), binary float / int, and the "
         "rejected kinds (class indices, out of range, rank 3); image dtypes float32/float64/uint8/int64 and ranks "
         "(C,H,W) / (H,W) / (D,) / () / (C,T,H,W); 4% multi-view samples (x = list of 2-3 view tensors, 40% of them in the "
         "single-item mode 'x'); draws from numpy default_rng(seed) or a scripted generator injecting "
@@ -272,13 +277,14 @@ def label_matrix(case):
     n = case["ncls"]
     if kind in ("onehot_id", "onehot_rand", "onehot_long"):
         return [[Fraction(1 if j == v else 0) for j in range(n)] for v in vals]
-    if kind == "soft":
+    if kind in ROW16_KINDS:
         return [[Fraction(a, 16) for a in v] for v in vals]
     if kind == "smooth":
         s = lab[2]
         off = s / n
         on = 1. - s + off
-        return [[Fraction(f32(on if j == v else off)) for j in range(n)] for v in vals]
+        # -1: an unlabeled sample, LabelSmoothingWrapper hands out a row of -1
+        return [[Fraction(-1) if v == -1 else Fraction(f32(on if j == v else off)) for j in range(n)] for v in vals]
     if kind == "binary_smooth":
         s = lab[2]
         off = s / 2
@@ -292,7 +298,7 @@ def label_matrix(case):
 
 def label_ndim(case):
     kind = case["labels"][0]
-    if kind in ("onehot_id", "onehot_rand", "onehot_long", "soft", "smooth"):
+    if kind in ("onehot_id", "onehot_rand", "onehot_long", "smooth") or kind in ROW16_KINDS:
         return 2
     return 3 if kind == "rank3" else 1
 
@@ -314,7 +320,7 @@ def label_value(case, k):
         return torch.nn.functional.one_hot(torch.tensor(vals[k]), case["ncls"]).float()
     if kind == "onehot_long":
         return torch.nn.functional.one_hot(torch.tensor(vals[k]), case["ncls"])
-    if kind == "soft":
+    if kind in ROW16_KINDS:
         return torch.tensor([a / 16.0 for a in vals[k]], dtype=torch.float32)
     if kind in ("binary", "binary_out"):
         return vals[k] / 16.0
@@ -324,6 +330,11 @@ def label_value(case, k):
 
 
 CTX_KINDS = ["int", "float", "bool", "i16", "f32"]
+# 2-d label rows given entry-wise in sixteenths: probability rows ("soft") and rows that do NOT sum to one -- multi-hot
+# targets with 0..n ones (multi-label), unnormalised non-negative soft targets, rows with negative entries, and
+# one-hot rows mixed with all -1 rows (the marker OneHotWrapper / LabelSmoothingWrapper emit for unlabeled samples).
+# The collator accepts every 2-d label matrix (only 1-d labels are range-checked).
+ROW16_KINDS = ("soft", "multihot", "soft_unnorm", "signed", "unlabeled")
 
 
 def ctx_value(kind, idx):
@@ -727,10 +738,13 @@ def run_impl(case):
             if not isinstance(it, torch.Tensor) or it.ndim not in (1, 2) or it.dtype != torch.float32:
                 obs["layout"] = "class item is " + str(getattr(it, "shape", type(it).__name__)) + str(getattr(it, "dtype", ""))
                 return obs
+            if not bool(torch.isfinite(it).all()):
+                obs["lab_nonfinite"] = True          # NaN / inf entries are reported as 1e30 (JSON- and Q-representable)
+            fin = torch.where(torch.isfinite(it), it, torch.full_like(it, 1e30)).double()
             if it.ndim == 1:
-                obs["lab"] = [[float(v)] for v in it]
+                obs["lab"] = [[float(v)] for v in fin]
             else:
-                obs["lab"] = [[float(v) for v in row] for row in it]
+                obs["lab"] = [[float(v) for v in row] for row in fin]
             obs["lab_ndim"] = it.ndim
             others.append("Y")
             others_in.append("Y")
@@ -962,9 +976,10 @@ def oracle(case, obs):
         if "class" in case["tokens"]:
             row = obs["lab"][i]
             exp = [lam * a + (1 - lam) * c for a, c in zip(Y[i], Y[p])]
-            if len(row) != len(exp) or any(abs(a - e) > 1e-5 for a, e in zip(row, exp)):
+            if len(row) != len(exp) or not all(abs(a - e) <= 1e-5 for a, e in zip(row, exp)):
                 return (f"sample {i}: label {row} is not {lam:.4f}*y_{i} + {1 - lam:.4f}*y_{p} = {exp} "
-                        f"(image uses partner {p} and weight {lam:.4f})")
+                        f"(input rows y_{i} = {Y[i]}, y_{p} = {Y[p]}; image uses partner {p} and weight {lam:.4f}"
+                        + ("; 1e30 stands for a NaN/inf entry" if obs.get("lab_nonfinite") else "") + ")")
             if rows_prob and (abs(sum(row) - 1.0) > 1e-5 or min(row) < 0.0):
                 return f"sample {i}: label row {row} is not a probability vector"
             if obs["lab_ndim"] != label_ndim(case):
@@ -1090,9 +1105,36 @@ def gen_labels(rng, case, kinds):
             cuts = sorted(rng.randint(0, 16) for _ in range(n - 1))
             vals.append([y - x for x, y in zip([0] + cuts, cuts + [16])])
         lab = [kind, vals]
+    elif kind == "multihot":
+        n = case["ncls"] = rng.randint(2, 6)
+        vals = []
+        for _ in range(b):
+            k = rng.choice([0, 0, 1, 2, 2, 3, n, rng.randint(0, n)])
+            on = set(rng.sample(range(n), min(k, n)))
+            vals.append([16 if j in on else 0 for j in range(n)])
+        lab = [kind, vals]
+    elif kind == "soft_unnorm":
+        n = case["ncls"] = rng.randint(2, 5)
+        lab = [kind, [[rng.choice([0, 0, rng.randint(0, 16), rng.randint(0, 48)]) for _ in range(n)] for _ in range(b)]]
+    elif kind == "signed":
+        n = case["ncls"] = rng.randint(2, 5)
+        lab = [kind, [[rng.choice([0, 16, -16, rng.randint(-32, 32)]) for _ in range(n)] for _ in range(b)]]
+    elif kind == "unlabeled":
+        n = case["ncls"] = rng.randint(2, 6)
+        vals = []
+        for _ in range(b):
+            if rng.random() < 0.5:
+                vals.append([-16] * n)
+            else:
+                v = rng.randrange(n)
+                vals.append([16 if j == v else 0 for j in range(n)])
+        lab = [kind, vals]
     elif kind == "smooth":
         case["ncls"] = rng.choice([2, 3, 4, 5, 8, max(2, b)])
-        lab = [kind, [rng.randrange(case["ncls"]) for _ in range(b)], rng.choice([0.1, 0.125, 0.25, 0.5, 1.0, 0.3])]
+        vals = [rng.randrange(case["ncls"]) for _ in range(b)]
+        if rng.random() < 0.35:          # semi-supervised: some samples are unlabeled (-1)
+            vals = [-1 if rng.random() < 0.4 else v for v in vals]
+        lab = [kind, vals, rng.choice([0.1, 0.125, 0.25, 0.5, 1.0, 0.3])]
     elif kind == "binary_smooth":
         lab = [kind, [rng.randint(0, 1) for _ in range(b)], rng.choice([0.1, 0.125, 0.25, 0.5, 1.0])]
     elif kind == "binary":
@@ -1111,8 +1153,9 @@ def gen_labels(rng, case, kinds):
     case["labels"] = lab
 
 
-LABEL_KINDS = (["onehot_id"] * 9 + ["onehot_rand", "onehot_rand", "onehot_long", "soft", "soft", "smooth", "smooth",
-               "binary", "binary", "binary_int", "binary_smooth", "index", "binary_out", "rank3"])
+LABEL_KINDS = (["onehot_id"] * 7 + ["onehot_rand", "onehot_rand", "onehot_long", "soft", "soft", "smooth", "smooth",
+               "binary", "binary", "binary_int", "binary_smooth", "index", "binary_out", "rank3",
+               "multihot", "multihot", "multihot", "soft_unnorm", "soft_unnorm", "signed", "unlabeled", "unlabeled"])
 
 
 def gen_case(rng, big=False, tier="quick"):
